@@ -199,14 +199,18 @@ where
 	F: Fn(&str, &str) -> Result<String, Error>,
 {
 	let client = get_client(&endpoint.root_certificates)?;
-	if endpoint.nonce.is_none() {
-		let _ = new_nonce(endpoint).await;
-	}
 	for _ in 0..crate::DEFAULT_HTTP_FAIL_NB_RETRY {
+		if endpoint.nonce.is_none() {
+			new_nonce(endpoint).await?;
+		}
 		let mut request = client.post(url);
 		request = request.header(header::ACCEPT, accept);
 		request = request.header(header::CONTENT_TYPE, content_type);
-		let nonce = &endpoint.nonce.clone().unwrap_or_default();
+		// A nonce is used for one request only.
+		let nonce = &endpoint
+			.nonce
+			.take()
+			.ok_or_else(|| HttpError::from("no nonce available"))?;
 		let body = data_builder(nonce, url)?;
 		rate_limit(endpoint).await;
 		log::trace!("POST request body: {body}");
